@@ -31,7 +31,7 @@ pub struct Case {
 
 pub fn generate(case_seed: u64, idx: u64, tier: Tier) -> Case {
     let mut rng = Rng::stream(case_seed, "c17");
-    let concurrent = idx % 3 == 2;
+    let concurrent = idx % 2 == 1;
     let n = if concurrent { rng.range(4, 10) } else { rng.range(8, if tier == Tier::Thorough { 30 } else { 18 }) } as usize;
     let policy = match rng.below(4) {
         0 => Policy::Uniform,
@@ -195,9 +195,13 @@ pub fn execute(case: &Case, rep: &mut RunReport) -> Result<(), Violation> {
     cfg.start_ms = BASE_MS + 60_000;
     let sim = Sim::new(&cfg);
     sim.install_clock_here();
-    let store = SimStore::new(sim.clone(), base_image());
+    // concurrent runs mostly disable the object cache: with it a whole query runs
+    // between two scheduling points and cannot be interleaved with a commit
+    let cache_off = if case.writers.is_empty() { simcore::rng::derive(case.seed, "cache-off") % 2 == 1 } else { simcore::rng::derive(case.seed, "cache-off") % 4 != 0 };
+    let store = SimStore::new(sim.clone(), base_image_with(cache_off));
     store.set_response_delay(simcore::store::seeded_response_delay(case.seed));
-    let nexus = block(open_nexus(&store)).map_err(|e| violation!("c17.boot", "nexus failed to open on the base image: {e}"))?;
+    let nexus = block(open_nexus_with(&store, cache_off)).map_err(|e| violation!("c17.boot", "nexus failed to open on the base image: {e}"))?;
+    let calls0 = sim.calls();
     let session = nexus.system_session();
     // two governed sessions: a writer without the destructive actions and a
     // reader; their refusals ("authorization") must leave no trace either
@@ -277,6 +281,8 @@ pub fn execute(case: &Case, rep: &mut RunReport) -> Result<(), Violation> {
         }
     }
     rep.evaluations = executed.len() as u64;
+    rep.probe(if cache_off { "runs_with_object_cache_off" } else { "runs_with_object_cache_on" }, 1);
+    rep.probe(if cache_off { "backend_calls_cache_off" } else { "backend_calls_cache_on" }, sim.calls() - calls0);
     let mut sigs = vec![sig.0];
 
     // ---- concurrent phase: readers never observe part of a statement
